@@ -545,6 +545,29 @@ func propC09(o *out, r *rng, thorough bool) {
 			}
 		}
 	}
+	// chains of one operator with a variable at the head and constants behind it, in both groupings, folded while the
+	// variable is unknown and evaluated with a value of every numeric kind: constants may only be combined where that
+	// is the same arithmetic for every value the variable can take
+	consts := []interface{}{int64(1), int64(3), int64(4), int64(-1), int64(4611686018427387904), int64(math.MaxInt64), int64(math.MinInt64), uint64(1) << 63, float64(0.1), float64(1e300), float64(3)}
+	heads := []interface{}{int64(5), int64(math.MaxInt64), uint64(7), uint64(math.MaxUint64), float64(0.0025), float64(1.5), float64(1e300), float64(-0.1)}
+	for _, op := range []influxql.Token{influxql.ADD, influxql.MUL, influxql.SUB, influxql.DIV, influxql.BITWISE_AND, influxql.BITWISE_OR} {
+		for _, c1 := range consts {
+			for _, c2 := range consts {
+				for _, h := range heads {
+					x := &influxql.VarRef{Val: "x"}
+					left := &influxql.BinaryExpr{Op: op, LHS: &influxql.BinaryExpr{Op: op, LHS: x, RHS: litOf(c1)}, RHS: litOf(c2)}
+					paren := &influxql.BinaryExpr{Op: op, LHS: &influxql.ParenExpr{Expr: &influxql.BinaryExpr{Op: op, LHS: x, RHS: litOf(c1)}}, RHS: litOf(c2)}
+					right := &influxql.BinaryExpr{Op: op, LHS: litOf(c1), RHS: &influxql.BinaryExpr{Op: op, LHS: litOf(c2), RHS: x}}
+					for _, e := range []influxql.Expr{left, paren, right} {
+						if !wellTypedCell(op, h, c1) || !wellTypedCell(op, h, c2) || !wellTypedCell(op, c1, c2) {
+							continue
+						}
+						c09One(o, e, nil, map[string]interface{}{"x": h}, "chain")
+					}
+				}
+			}
+		}
+	}
 	n := 5000
 	if thorough {
 		n = 400000
